@@ -69,7 +69,7 @@ size_t svalue_save_size (const svalue_t * v) {
 
         while ((c = *cp++))
           {
-            if (c == '\\' || c == '"') /* need to escape these characters */
+            if (c == '\\' || c == '"' || c == '\r') /* need to escape these characters */
               size++;
             size++;
           }
@@ -166,7 +166,7 @@ void save_svalue (svalue_t * v, char **buf) {
         *cp++ = '"';
         while ((c = *str++))
           {
-            if (c == '"' || c == '\\')
+            if (c == '"' || c == '\\' || c == '\r')	/* a bare \r stands for \n, a real one is escaped */
               {
                 *cp++ = '\\';
                 *cp++ = c;
